@@ -9,7 +9,7 @@ CORRESPONDENCE = ("Model/BodyEnc.lean (choose, bestEncoding, crlfNormalize, comp
 RULE = ("body: String and Vec<u8> inputs x {automatic, 7bit, 8bit, quoted-printable, base64, binary}: every string over "
         "{a = SP HTAB CR LF NUL e-acute 0xFF} up to length 4 (quick) / 5 (thorough) [exhaustive], structured contents with line "
         "lengths 74..78 and 996..1000, escape ratios around 1/3, trailing blanks, CR/LF mixes, '=' runs, UTF-8 of every width, invalid "
-        "UTF-8 for vectors, sizes up to 64 KiB / 1 MiB; qp / b64 / crlf: the encoders alone on the same kinds of octets. "
+        "UTF-8 for vectors, sizes up to 64 KiB / 256 KiB; qp / b64 / crlf: the encoders alone on the same kinds of octets. "
         "Non-trivial = content with CR/LF/NUL/'='/non-ASCII/trailing blank or a line of 74+ octets; distinct = distinct case lines.")
 TRUSTED_BASE = ["Lean 4 kernel", "axioms: propext, Quot.sound, Classical.choice at most (see axioms per theorem)",
                 "Spec/BodyDec.lean as the reading of RFC 2045 6.7/6.8 and of what 7bit promises",
@@ -51,9 +51,9 @@ def gen(tier, rng):
                 for r in REQS:
                     cases.append(f"body\t{kind}\t{r}\t{hexs(c)}")
     nrand = {"quick": 3000, "search": 10000, "thorough": 60000}[tier]
-    big = {"quick": 65536, "search": 65536, "thorough": 1 << 20}[tier]
+    big = {"quick": 65536, "search": 65536, "thorough": 1 << 18}[tier]
     for i in range(nrand):
-        c = rand_content(rng, big if i % 400 == 0 else 3000)
+        c = rand_content(rng, big if i % (400 if tier != "thorough" else 1500) == 0 else 3000)
         kind = "s" if valid_utf8(c) and rng.random() < 0.7 else "b"
         if kind == "s" and not valid_utf8(c):
             kind = "b"
